@@ -60,6 +60,24 @@ class ListObj:
         return f"List<{self.term if self.symbolic else self.items}>"
 
 
+def frozen_copy(v):
+    """an independent copy of a mutable container as it is NOW (containers are mutated in place: a state snapshot that keeps only the
+    reference shows whatever the container holds when the snapshot is READ); everything else is returned as it is"""
+    if isinstance(v, ListObj):
+        c = ListObj(list(v.items) if v.items is not None else None, v.term, v.elem)
+        c.is_deque = v.is_deque
+        return c
+    if isinstance(v, DictObj):
+        c = DictObj(dict(v.d), v.log)
+        c.ordered, c.symbolic, c.hist = v.ordered, v.symbolic, (list(v.hist) if v.hist is not None else None)
+        return c
+    if isinstance(v, SetObj):
+        c = SetObj(list(v.s), v.log)
+        c.symbolic, c.hist = v.symbolic, (list(v.hist) if v.hist is not None else None)
+        return c
+    return v
+
+
 class DictObj:
     """`log`: the insertion history as a z3 Seq[Val] of (key, value) pairs - the dict's content is a function of it;
     `d` is only meaningful while every key was concrete (`symbolic` False)"""
